@@ -702,6 +702,11 @@ func main() {
 	// 4b''. bigtie: one value repeated 255..520 times (byte-sized counters wrap at 256); approximate branch
 	bigTie(rng)
 
+	// 4b3. conc: the same untied exact evaluations sequentially, then from 8 goroutines at once
+	for b, nb := 0, hx.N(1, 10); b < nb; b++ {
+		concBatch(rng, b)
+	}
+
 	// 4c. histories: look-alike tie vectors with large tie groups, evaluated one after the other in
 	//     one process; every answer must be the one the stateless specification gives for ITS case
 	historyFamily(rng)
@@ -1084,6 +1089,123 @@ func bigTie(rng *hx.Rand) {
 		}
 		mwAuto(build(n1, r, v, spread), build(n2, rng.Intn(300), v2, spread2), 1, defLim, defLimT, "bigtie")
 	}
+}
+
+// concBatch: a few hundred untied exact calls (MannWhitneyUTest x 3 alternatives on eight size pairs, and
+// UDist PMF/CDF sweeps) are first made one after the other - the test calls are also emitted as ordinary
+// mw cases and judged by the specification - and then repeated from 8 goroutines at the same time.
+// Every concurrent result must be bit-identical to the sequential one: the functions are pure.
+//
+//	case <id> kind=conc calls=<n> goroutines=8 rounds=<r> tag=conc
+//	obs/sobs <id> conc=<number of concurrent results that differ (a recovered panic counts)> [first=…]
+func concBatch(rng *hx.Rand, b int) {
+	pinShard = 3000 + b
+	defer func() { pinShard = -1 }()
+	type call struct {
+		f1, f2 []float64
+		alt    string
+		dist   *stats.UDist // when set: PMF and CDF sweep instead of a test
+	}
+	sizes := [][2]int{{3, 4}, {5, 5}, {6, 9}, {10, 10}, {12, 7}, {15, 15}, {20, 20}, {8, 30}}
+	var calls []call
+	for _, sz := range sizes {
+		for rep := 0; rep < 4; rep++ {
+			x1, x2 := make([]int, sz[0]), make([]int, sz[1])
+			for j := range x1 {
+				x1[j] = rng.Intn(8 * (sz[0] + sz[1]))
+			}
+			for j := range x2 {
+				x2[j] = rng.Intn(8 * (sz[0] + sz[1]))
+			}
+			distinct(x1, x2)
+			mwAuto(x1, x2, 1, defLim, defLimT, "conc") // the sequential, spec-judged evaluation
+			for _, a := range altNames {
+				calls = append(calls, call{f1: floats(x1, 1), f2: floats(x2, 1), alt: a})
+			}
+		}
+		calls = append(calls, call{dist: &stats.UDist{N1: sz[0], N2: sz[1]}})
+	}
+	id, ok := mine()
+	if !ok {
+		return
+	}
+	eval := func(c call) (out []uint64) {
+		defer func() {
+			if r := recover(); r != nil {
+				out = []uint64{0xdead}
+			}
+		}()
+		if c.dist != nil {
+			for u := 0; u <= c.dist.N1*c.dist.N2; u++ {
+				out = append(out, math.Float64bits(c.dist.PMF(float64(u))), math.Float64bits(c.dist.CDF(float64(u))))
+			}
+			return out
+		}
+		res, err := stats.MannWhitneyUTest(c.f1, c.f2, altVals[c.alt])
+		if err != nil {
+			return []uint64{1}
+		}
+		return []uint64{math.Float64bits(res.U), math.Float64bits(res.P)}
+	}
+	same := func(a, b []uint64) bool {
+		if len(a) != len(b) {
+			return false
+		}
+		for i := range a {
+			if a[i] != b[i] {
+				return false
+			}
+		}
+		return true
+	}
+	ref := make([][]uint64, len(calls))
+	for i, c := range calls {
+		ref[i] = eval(c)
+	}
+	const G, rounds = 8, 3
+	diff := make([]int, G)
+	firsts := make([]int, G)
+	done := make(chan int, G)
+	for g := 0; g < G; g++ {
+		firsts[g] = -1
+		go func(g int) {
+			defer func() { done <- g }()
+			for r := 0; r < rounds; r++ {
+				for k := range calls {
+					i := (k*7 + g*13 + r) % len(calls) // every goroutine walks the calls in its own order
+					if !same(eval(calls[i]), ref[i]) {
+						diff[g]++
+						if firsts[g] < 0 {
+							firsts[g] = i
+						}
+					}
+				}
+			}
+		}(g)
+	}
+	for g := 0; g < G; g++ {
+		<-done
+	}
+	total, first := 0, -1
+	for g := 0; g < G; g++ {
+		total += diff[g]
+		if first < 0 && firsts[g] >= 0 {
+			first = firsts[g]
+		}
+	}
+	line := fmt.Sprintf("conc=%d", total)
+	if first >= 0 {
+		c := calls[first]
+		if c.dist != nil {
+			line += fmt.Sprintf(" first=dist:%dx%d", c.dist.N1, c.dist.N2)
+		} else {
+			line += fmt.Sprintf(" first=%s:%dx%d", c.alt, len(c.f1), len(c.f2))
+		}
+	}
+	hx.Printf("case %d kind=conc calls=%d goroutines=%d rounds=%d tag=conc\n", id, len(calls), G, rounds)
+	hx.Printf("info %d -\n", id)
+	hx.Printf("obs %d %s\n", id, line)
+	hx.Printf("sobs %d %s\n", id, line)
 }
 
 func extremes(rng *hx.Rand) {
